@@ -333,8 +333,6 @@ var idxNames = []string{"ia", "ib", "ic"}
 
 // ---------- one batch: many cases on one database and one service ----------
 
-type lrec struct{ term string }
-
 type caseRun struct {
 	d           Desc
 	rname       string // test.cN
@@ -1212,7 +1210,7 @@ func main() {
 		d.Len = 0
 		descs = append(descs, d)
 	} else {
-		n := 480
+		n := 1500
 		if o.Tier == "thorough" {
 			n = 12000
 		}
@@ -1289,5 +1287,5 @@ func main() {
 			"indexes, negative indexes, deletes of absent properties, unchanged values, int vs float64 values, create on existing, events of the "+
 			"wrong resource type, a few values that do not fit the handler's Type); non-trivial = at least two published events and one failed event; "+
 			"distinct by full observation trace",
-		cases, dist, nil, impl, 60)
+		cases, dist, nil, impl, 100)
 }
